@@ -101,9 +101,7 @@ theorem step_keeps_owner (d d' : PDesc) (op : Op) (h : step d op = .ok (some d')
   | wait c now =>
     have hne : o.id ≠ c.ownerID := fun he => hn he.symm
     simp only [step, waitAndRegister] at h
-    split at h
-    · cases h
-    · exact addOrUpdateOwner_keeps (by simpa using h) ho hne
+    exact addOrUpdateOwner_keeps (by simpa using h) ho hne
   | reconcileOwned c now =>
     obtain ⟨_, _, _, _, _, rfl⟩ := reconcileOwned_guard d d' c now (by simpa [step] using h)
     exact ho
@@ -187,14 +185,10 @@ theorem start_registers (l : Loop) (d : PDesc) (tokens : List Nat) (now : Int) (
       | none => simp only [ha, if_true] at h hreg; cases h; exact hreg
   · have hc' : l.createOnStartup = false := by simpa using hc
     simp only [hc', Bool.false_eq_true, if_false, step, waitAndRegister] at h
-    cases hg : d.get? l.cfg.pid with
-    | none => simp only [hg] at h; cases h
-    | some p =>
-      simp only [hg] at h
-      have hreg := addOrUpdateOwner_registers d l.cfg.ownerID l.cfg.pid now
-      cases ha : addOrUpdateOwner d l.cfg.ownerID oActive l.cfg.pid now with
-      | some d2 => simp only [ha] at h hreg; cases h; exact hreg
-      | none => simp only [ha] at h hreg; cases h; exact hreg
+    have hreg := addOrUpdateOwner_registers d l.cfg.ownerID l.cfg.pid now
+    cases ha : addOrUpdateOwner d l.cfg.ownerID oActive l.cfg.pid now with
+    | some d2 => simp only [ha] at h hreg; cases h; exact hreg
+    | none => simp only [ha] at h hreg; cases h; exact hreg
 
 /-! ### the system invariant -/
 
@@ -267,7 +261,7 @@ theorem sysStep_registered (ls : List Loop) (hd : DistinctOwners ls) (s : Sys) (
     | none => simp only [hli] at hph ⊢; exact hinv j lj hlj hph
     | some li =>
       simp only [hli] at hph ⊢
-      by_cases hni : s.phase i = .new
+      by_cases hni : li.canStart (s.phase i) = true
       · simp only [hni, if_true] at hph ⊢
         cases hst : step s.ring (li.startOp tokens now) with
         | error e =>
@@ -300,8 +294,22 @@ theorem sysStep_registered (ls : List Loop) (hd : DistinctOwners ls) (s : Sys) (
                 exact hji (hd j i lj li hlj hli heq.symm))
               simpa using this
             exact registered_kept lj _ _ h1 (tickOps_touch li first.1 first.2 _)
-      · simp only [hni, if_false] at hph ⊢
+      · have hni' : li.canStart (s.phase i) = false := by simpa using hni
+        simp only [hni', Bool.false_eq_true, if_false] at hph ⊢
         exact hinv j lj hlj hph
+  | poll i =>
+    simp only [sysStep, actOps, actPhase, List.foldl_nil] at hph ⊢
+    apply hinv j lj hlj
+    cases hli : ls[i]? with
+    | none => simpa [hli] using hph
+    | some li =>
+      simp only [hli] at hph
+      split at hph
+      · simp only [setPhase] at hph
+        by_cases hji : j = i
+        · simp [hji] at hph
+        · simpa [hji] using hph
+      · exact hph
 
 def GoodRun (ls : List Loop) : Sys → List Act → Prop
   | _, [] => True
